@@ -86,8 +86,10 @@ type Sim struct {
 	Probes    map[string]int
 	probeMu   sync.Mutex
 
-	rootGid uint64
-	stopped atomic.Bool
+	rootGid   uint64
+	sticky    int
+	stickySet bool
+	stopped   atomic.Bool
 	// PassThrough makes every yield point return immediately (set by the
 	// scheduler goroutine while it runs instrumented code itself and waits
 	// for goroutines that code spawns).
@@ -426,9 +428,31 @@ func (s *Sim) Decide(filter Filter) bool {
 	if len(acts) == 0 {
 		return false
 	}
-	i := s.Choose(len(acts), "action")
-	s.Perform(acts[i])
+	s.Perform(s.Pick(acts))
 	return true
+}
+
+// Pick chooses among the enabled actions from the tape. The first decision
+// of a run draws its stickiness (the probability, in percent, of staying with
+// the task that ran last when it is enabled again): runs with long
+// uninterrupted stretches of one task reach states that uniformly random
+// switching rarely does. Everything is read from the tape, so it replays.
+func (s *Sim) Pick(acts []Action) Action {
+	if !s.stickySet {
+		s.stickySet = true
+		s.sticky = [4]int{0, 0, 50, 85}[s.Tape.Choose(4)]
+	}
+	if s.sticky > 0 && s.running != nil && len(acts) > 1 {
+		for _, a := range acts {
+			if a.task == s.running {
+				if s.Tape.Choose(100) < s.sticky {
+					return a
+				}
+				break
+			}
+		}
+	}
+	return acts[s.Choose(len(acts), "action")]
 }
 
 // Enabled returns the canonical list of enabled actions. Call only after
